@@ -58,6 +58,42 @@ let parse_out (s : string) : out =
   | Some k -> OSym (decode_name (String.sub s 0 k), z_of_string (String.sub s (k + 1) (String.length s - k - 1)))
   | None -> OBadMember
 
+(* ks: the script history as constructs of Model/SymtabScript.v
+     s<i>:<name>               KStr2sym
+     f<i>:<site>:<r1>+<r2>..   KForm reads site     u<i>:<site>:<reads>  KInDup reads site
+     d<i>:<name>:<v>  KDef     v<i>:<name>  KGet    D<i> KDup   C<i> KClone
+   site: none gensym gp.<prefix> anon loop ll.<label> pk.<name> rdef rset xdef xset *)
+let parse_site (s : string) : gsite =
+  let after k = decode_name (String.sub s k (String.length s - k)) in
+  if s = "none" then GsNone else if s = "gensym" then GsGensym
+  else if s = "anon" then GsAnonFn else if s = "loop" then GsLoop
+  else if s = "rdef" then GsRangeDef else if s = "rset" then GsRangeSet
+  else if s = "xdef" then GsRunRangeDef else if s = "xset" then GsRunRangeSet
+  else if String.length s >= 3 && String.sub s 0 3 = "gp." then GsGensymP (after 3)
+  else if String.length s >= 3 && String.sub s 0 3 = "ll." then GsLabelLoop (after 3)
+  else if String.length s >= 3 && String.sub s 0 3 = "pk." then GsPackage (after 3)
+  else failwith ("bad site " ^ s)
+
+let parse_construct (s : string) : nat * construct =
+  let body = String.sub s 1 (String.length s - 1) in
+  let parts = String.split_on_char ':' body in
+  let i = nat_of_int (int_of_string (List.hd parts)) in
+  let arg k = try List.nth parts k with _ -> "" in
+  let reads r = List.map decode_name (if r = "" then [] else String.split_on_char '+' r) in
+  match s.[0] with
+  | 's' -> (i, KStr2sym (decode_name (arg 1)))
+  | 'f' -> (i, KForm (reads (arg 2), parse_site (arg 1)))
+  | 'u' -> (i, KInDup (reads (arg 2), parse_site (arg 1)))
+  | 'd' -> (i, KDef (decode_name (arg 1), z_of_string (arg 2)))
+  | 'v' -> (i, KGet (decode_name (arg 1)))
+  | 'D' -> (i, KDup)
+  | 'C' -> (i, KClone)
+  | _ -> failwith ("bad construct " ^ s)
+
+let show_gobs (l : gobs list) : string =
+  String.concat "," (List.concat (List.map (function
+    | GVal (Some v) -> [string_of_z v] | GVal None -> ["none"] | GStuck -> ["STUCK"] | GNone -> []) l))
+
 let field (kvs : (string * string) list) (k : string) : string =
   try List.assoc k kvs with Not_found -> ""
 
@@ -114,6 +150,13 @@ let () =
       let hidden = List.map (fun o -> o.[0] = 'h') opstrs in
       let st0 = { symtable = pre; revsymtable = List.map (fun (n, k) -> (k, n)) pre; nexts = counters } in
       let ext = (field kvs "route" <> "api") in
+      (* script level: the constructs compile (Coq: script_ops) to exactly the operations the harness lists *)
+      let ksf = field kvs "ks" in
+      let ks = List.map parse_construct (split_on ',' ksf) in
+      let lay0 = List.map (fun _ -> O) counters in
+      let ks_ok = ksf = "" || (List.exists (fun s -> s = "D9999") (split_on ',' ksf))
+                  || (script_ops lay0 ks = ops && members_valid lay0 ks && layout_ok lay0) in
+      let has_scope = List.exists (fun (_, k) -> match k with KDef _ | KGet _ -> true | _ -> false) ks in
       let (st1, outs) = run st0 ops in
       let visible l = List.concat (List.map2 (fun h o -> if h then [] else [o]) hidden l) in
       let msyms = select_syms (syms_of (visible outs)) in
@@ -129,7 +172,11 @@ let () =
              "|ne=" ^ eq_bits (fun (_, a) (_, b) -> compare_symbol b a <> Z0) msyms
              ^ "|leq=" ^ eq_bits (fun (_, a) (_, b) -> compare_symbols [a] [b] = Z0) msyms
              ^ "|aeq=" ^ eq_bits (fun (_, a) (_, b) -> compare_symbols [a] [b] = Z0) msyms
-           else "") in
+           else "")
+        ^ (if has_scope then
+             (match scope_run st0 lay0 [] ks with (_, obs) -> "|scope=" ^ show_gobs obs)
+           else "")
+        ^ (if ks_ok then "" else "|KSDIFF: script_ops of the constructs differs from the listed operations") in
       (* the specification judges the implementation's own answers *)
       let impl = field kvs "impl" in
       let spec =
@@ -159,6 +206,7 @@ let () =
             else if ext && seg "ne" <> want_ne then "bad:inequality want " ^ want_ne
             else if ext && seg "leq" <> want_eq then "bad:list-equality want " ^ want_eq
             else if ext && seg "aeq" <> want_eq then "bad:array-equality want " ^ want_eq
+            else if has_scope && seg "scope" <> show_gobs (nscope_run [] ks) then "bad:scope want " ^ show_gobs (nscope_run [] ks)
             else "ok"
         end in
       Printf.printf "%s\t%s\t%s\n" id model spec
